@@ -23,6 +23,8 @@ extern "C" {
 void vp_sym_bytes_n(QByteArray *out, unsigned maxlen);
 void vp_sym_bytes_exact(QByteArray *out, unsigned n);
 void vp_sym_string_exact(QString *out, unsigned n);
+unsigned vp_cfg(unsigned i); unsigned vp_diglen();
+void vp_split_hint_begin(const QByteArray *ba, char sep); void vp_split_hint_piece(unsigned len);
 unsigned vp_orc_count();
 void vp_orc_seal(unsigned n);
 unsigned vp_orc_kind(unsigned i); unsigned vp_orc_alg(unsigned i); unsigned vp_orc_iters(unsigned i); unsigned long long vp_orc_dklen(unsigned i);
